@@ -163,8 +163,86 @@ func funcKey(pkg string, d *ast.FuncDecl) string {
 	return name
 }
 
+type sec struct{ key, body string }
+
+// siteSections are cross-cutting inventories: every place in the two packages that sets a connection
+// deadline, starts a goroutine, recovers a panic, or touches one of the wait groups - wherever it is, also
+// in functions no property names. A new, removed or moved site changes the section.
+func siteSections(pkgs map[string]*parsed) []sec {
+	sites := map[string][]string{"sites.deadline": nil, "sites.go": nil, "sites.recover": nil, "sites.waitgroup": nil, "sites.connwriter": nil}
+	for _, pname := range []string{"gldap", "testdirectory"} {
+		p := pkgs[pname]
+		if p == nil {
+			continue
+		}
+		for i, f := range p.files {
+			fn := p.names[i]
+			if fn == "testing.go" || fn == "testingt.go" || fn == "codes.go" || strings.HasPrefix(fn, "verif_") {
+				continue
+			}
+			for _, d := range f.Decls {
+				fd, ok := d.(*ast.FuncDecl)
+				if !ok || fd.Body == nil {
+					continue
+				}
+				key := funcKey(pname, fd)
+				var walk func(n ast.Node, depth int)
+				render := func(e ast.Node) string {
+					var buf bytes.Buffer
+					_ = printer.Fprint(&buf, token.NewFileSet(), e)
+					return strings.Join(strings.Fields(buf.String()), " ")
+				}
+				where := func(depth int) string {
+					if depth == 0 {
+						return key
+					}
+					return key + strings.Repeat("/func", depth)
+				}
+				walk = func(n ast.Node, depth int) {
+					ast.Inspect(n, func(x ast.Node) bool {
+						switch v := x.(type) {
+						case *ast.FuncLit:
+							if v != n {
+								walk(v.Body, depth+1)
+								return false
+							}
+						case *ast.GoStmt:
+							sites["sites.go"] = append(sites["sites.go"], "  "+where(depth)+": go")
+						case *ast.CallExpr:
+							if id, ok := v.Fun.(*ast.Ident); ok && id.Name == "recover" {
+								sites["sites.recover"] = append(sites["sites.recover"], "  "+where(depth)+": recover()")
+							}
+							if sel, ok := v.Fun.(*ast.SelectorExpr); ok {
+								switch sel.Sel.Name {
+								case "SetDeadline", "SetReadDeadline", "SetWriteDeadline":
+									sites["sites.deadline"] = append(sites["sites.deadline"], "  "+where(depth)+": "+render(v))
+								case "Write", "Flush", "WriteString", "Lock", "Unlock", "ReadFrom":
+									if x := render(sel.X); strings.HasSuffix(x, ".writer") || strings.HasSuffix(x, "writerMu") || x == "writer" {
+										sites["sites.connwriter"] = append(sites["sites.connwriter"], "  "+where(depth)+": "+render(sel)+"(..)")
+									}
+								case "Add", "Done", "Wait":
+									if x := render(sel.X); strings.HasSuffix(x, "Wg") || strings.HasSuffix(x, "wg") {
+										sites["sites.waitgroup"] = append(sites["sites.waitgroup"], "  "+where(depth)+": "+render(v))
+									}
+								}
+							}
+						}
+						return true
+					})
+				}
+				walk(fd.Body, 0)
+			}
+		}
+	}
+	var out []sec
+	for k, v := range sites {
+		sort.Strings(v)
+		out = append(out, sec{k, strings.Join(v, "\n")})
+	}
+	return out
+}
+
 func emitInventory(pkgs map[string]*parsed) string {
-	type sec struct{ key, body string }
 	var secs []sec
 	for _, pname := range []string{"gldap", "testdirectory"} {
 		p := pkgs[pname]
@@ -199,6 +277,7 @@ func emitInventory(pkgs map[string]*parsed) string {
 			}
 		}
 	}
+	secs = append(secs, siteSections(pkgs)...)
 	sort.Slice(secs, func(i, j int) bool { return secs[i].key < secs[j].key })
 	var sb strings.Builder
 	sb.WriteString("# GENERATED by /verif/go/extract from /repo - normalised function inventory\n")
